@@ -124,6 +124,13 @@ class TSBurstDetector(Elaboratable):
             with m.State("WAIT_FOR_FIRST"):
                 advance_on_match(0, target_ctrl=self._first_word_ctrl, fail_state="WAIT_FOR_FIRST")
 
+                # Sets only count as consecutive if nothing but gaps in the stream separates them: any other
+                # valid word seen while we wait for the next set breaks the run, exactly as it does when it
+                # directly follows a set.
+                is_first_word = (data == self._set_data[0]) & (ctrl == self._first_word_ctrl)
+                with m.If(self.sink.valid & ~is_first_word):
+                    m.d.ss += consecutive_set_count.eq(0)
+
             # 1_DETECTED -- we're parsing the first data word; which we'll do slightly differently,
             # as it can contain a variable configuration field.
             with m.State("1_DETECTED"):
